@@ -7,6 +7,7 @@
 #include <fcntl.h>
 #include <sys/mman.h>
 #include <time.h>
+#include <sys/time.h>
 #include <locale.h>
 
 namespace vf {
@@ -164,7 +165,7 @@ int main(int argc, char** argv) {
     static char altstack[1 << 16];
     stack_t ss; ss.ss_sp = altstack; ss.ss_size = sizeof altstack; ss.ss_flags = 0; sigaltstack(&ss, nullptr);
     struct sigaction sa; memset(&sa, 0, sizeof sa); sa.sa_sigaction = crash_handler; sa.sa_flags = SA_SIGINFO | SA_ONSTACK | SA_NODEFER;
-    int sigs[] = {SIGSEGV, SIGBUS, SIGABRT, SIGFPE, SIGILL, SIGALRM};
+    int sigs[] = {SIGSEGV, SIGBUS, SIGABRT, SIGFPE, SIGILL, SIGALRM, SIGPROF};
     for (int s : sigs) sigaction(s, &sa, nullptr);
 
     g_t0 = now();
@@ -178,13 +179,15 @@ int main(int argc, char** argv) {
         else if ((int)(idx % (uint64_t)ctx.nworkers) != ctx.worker) continue;
         ctx.case_index = idx; rec[0] = idx; rec[1] = 0; notebuf[0] = 0; ctx.attribute(mon->primary_prop);
         ctx.rng.seed(ctx.seed, mh, idx);
-        if ((ctx.cases & 1023) == 0) { double t = now(); if (t - last_alarm > 1.0) { alarm((unsigned)per_case_alarm); last_alarm = t; } }
+        // watchdog in CPU time of this process (ITIMER_PROF), so that a loaded machine cannot make a slow case look like a hang;
+        // re-armed at a case boundary at most once a second, i.e. one case gets at least per_case_alarm - 1 CPU seconds
+        { double t = now(); if (t - last_alarm > 1.0) { struct itimerval it; memset(&it, 0, sizeof it); it.it_value.tv_sec = per_case_alarm; setitimer(ITIMER_PROF, &it, nullptr); last_alarm = t; } }
         double tc0 = slowlog ? now() : 0;
         mon->run_case(ctx, idx);
         if (slowlog) { double dt = now() - tc0; if (dt > 0.25) fprintf(stderr, "SLOW-CASE %.2fs index=%llu note=%.160s\n", dt, (unsigned long long)idx, notebuf); }
         ctx.cases++;
     }
-    alarm(0);
+    { struct itimerval it; memset(&it, 0, sizeof it); setitimer(ITIMER_PROF, &it, nullptr); }
     if (mon->finish) mon->finish(ctx);
     dump_results(ctx, 0, 0, "", n);
     return 0;
